@@ -205,7 +205,7 @@ Definition info_spec (d : Z) (out : obs) : bool :=
       && (w =? iso_week_exec d) && (q =? (m - 1) / 3 + 1) && (e =? wd + 1) && (e7 =? (wd + 6) mod 7 + 1)
   | _ => false end.
 
-Definition check_C02 (c : case) : Z :=
+Definition check_C02_core (c : case) : Z :=
   match c_op c, c_ints c with
   | Op_date_info, [d] => verdict (obs_eqb (info_model d) (c_out c)) (info_spec d (c_out c))
   | Op_dt_info, [d; n; o] =>
@@ -263,6 +263,13 @@ Definition check_C03 (c : case) : Z :=
       let v := check_C06 c in
       let s := match c_out c with
                | OOk [r] [] => if 0 <? r then inst d2 n2 <? inst d1 n1 else if r <? 0 then inst d1 n1 <? inst d2 n2 else true
+               | _ => false end in
+      if v =? 0 then verdict true s else if v =? 1 then verdict false s else if v =? 2 then verdict true s else verdict false s
+  (* the same for two Times: they are ordered by their stored times of day, whatever offsets they carry *)
+  | Op_time_since, [u; n1; o1; n2; o2] =>
+      let v := check_C06 c in
+      let s := match c_out c with
+               | OOk [r] [] => if 0 <? r then n2 <? n1 else if r <? 0 then n1 <? n2 else true
                | _ => false end in
       if v =? 0 then verdict true s else if v =? 1 then verdict false s else if v =? 2 then verdict true s else verdict false s
   | _, _ => check_C03_core c
@@ -378,6 +385,14 @@ Definition check_C09 (c : case) : Z :=
                   else out_is_panic (c_out c) in
       verdict (obs_eqb mo (c_out c)) spec
   | _, _ => V_MALFORMED
+  end.
+
+(* C02, last sentence, for DateTime values with an offset: set_day_of_year lands on the N-th day of the local year
+   (the setter's oracle is C09's) *)
+Definition check_C02 (c : case) : Z :=
+  match c_op c, c_ints c with
+  | Op_dt_set, 3 :: _ => check_C09 c
+  | _, _ => check_C02_core c
   end.
 
 Definition check_C10 (c : case) : Z :=
